@@ -287,13 +287,17 @@ def base_terms_rule(ctx):
         if ai is None or ai.value is None:
             res.fail(Finding("BASE-TERMS", cls.module, cname + ".__init__", cls.node, "%s has no _log_z normaliser" % cname, construct="_log_z of " + cname))
         else:
-            names = {n.id for n in ast.walk(ai.value) if isinstance(n, ast.Name)} - {"torch", "np", "math"}
+            from ..symexp import inline_expr
+
+            alts = inline_expr(ai.value, ai.func.node if ai.func is not None else None)
+            value = alts[0][1] if len(alts) == 1 else ai.value
+            names = {n.id for n in ast.walk(value) if isinstance(n, ast.Name)} - {"torch", "np", "math"}
             if names <= {"shape"} and "shape" in names:
                 res.ok("%s._log_z depends on the event shape only" % cname)
             else:
                 res.fail(Finding("BASE-TERMS", cls.module, cname + ".__init__", ai.node, "the normaliser must be a function of the event shape only; it mentions %s" % sorted(names)))
             # structure of the Gaussian normaliser: 0.5 * (number of event elements) * log(2 pi)
-            core = ai.value
+            core = value
             if isinstance(core, ast.Call) and norm_text(core.func) in ("torch.tensor", "torch.as_tensor") and core.args:
                 core = core.args[0]
             ps, fac = product_factors(core)
@@ -567,115 +571,108 @@ def arg_check_rule(ctx):
 
 
 def batch_rule(ctx):
+    """BATCH-COUNT / BATCH-CAT by partial evaluation (nfstatic/peval.py) of Distribution.sample
+    for every (num_samples, batch_size) in a grid and with / without a context: `_sample` is an
+    uninterpreted function, so the result is a term -- one call, or a concatenation of calls --
+    and the property reads off it: the calls draw num_samples samples in total, none more than
+    batch_size, all with the given context, concatenated along the sample axis (0 without a
+    context, 1 with one)."""
+    from ..peval import PEval, Obj, Sym, SymFn, Undecided as PUndecided, Raises as PRaises, show
+
     p = ctx.p
     dist = _dist(p)
     sm = dist.methods.get("sample")
+    if sm is None:
+        raise AnalysisIncomplete("Distribution.sample missing")
     res_cat = RuleResult("BATCH-CAT", "batches of samples are concatenated along the sample axis: dim 0 without a context, dim 1 with one")
-    res_cnt = RuleResult("BATCH-COUNT", "batched generation draws num_samples // batch_size full batches plus one batch of the remainder when positive, all with the same context")
-    n = 0
-    for path in paths_of(sm.node):
-        if path.kind != "return":
-            continue
-        cats = [c for c in ast.walk(path.ret) if isinstance(c, ast.Call) and norm_text(c.func) in ("torch.cat", "torch.concat", "torch.concatenate")]
-        if not cats:
-            continue
-        n += 1
-        cat = cats[0]
-        dim = _kwarg(cat, "dim", 1)
-        if dim is not None:
-            from ..symexp import clone
+    res_cnt = RuleResult("BATCH-COUNT", "batched generation draws exactly num_samples samples in batches of at most batch_size, all with the same context")
+    methods = {nm: fi.node for nm, fi in dist.methods.items()}
+    reported = set()
 
-            dim = _Canon().visit(clone(dim))
-        atoms = set()
-        for et, raw, pol in path.conds:
-            atoms |= cond_atoms(raw, pol)
-        ctx_none = "context is None" in atoms
-        ctx_some = "context is not None" in atoms
-        verdict = None
-        if dim is None:
-            dimv = 0
-        else:
-            dimv = const_number(dim)
-        if dimv is not None:
-            if dimv == 0 and ctx_none:
-                verdict = "ok"
-            elif dimv == 1 and ctx_some:
-                verdict = "ok"
-            elif ctx_none or ctx_some:
-                verdict = "wrong"
-            else:
-                verdict = "undecided-const"
-        elif isinstance(dim, ast.IfExp):
-            t = cond_atoms(dim.test, True)
-            a, b = const_number(dim.body), const_number(dim.orelse)
-            if "context is None" in t:
-                verdict = "ok" if (a, b) == (0, 1) else "wrong"
-            elif "context is not None" in t:
-                verdict = "ok" if (a, b) == (1, 0) else "wrong"
-        elif isinstance(dim, ast.Call) and norm_text(dim.func) == "int" and dim.args:
-            t = cond_atoms(dim.args[0], True)
-            if "context is not None" in t:
-                verdict = "ok"
-        node = path.ret_node
-        if verdict == "ok":
-            res_cat.ok("path %d: cat along the sample axis (%s)" % (n, norm_text(dim) if dim is not None else "0"))
-        elif verdict == "undecided-const":
-            res_cat.fail(Finding("BATCH-CAT", sm.module, sm.qualname, node, "batches are concatenated along the constant dim=%s whether or not a context is given: _sample returns [n, ...] without and [rows, n, ...] with a context, so one of the two cases concatenates along the wrong axis" % dimv))
-        elif verdict == "wrong":
-            res_cat.fail(Finding("BATCH-CAT", sm.module, sm.qualname, node, "batches are concatenated along the wrong axis for this context case"))
-        else:
-            res_cat.undecide("Distribution.sample cat dim `%s`" % (norm_text(dim) if dim is not None else None), "cannot relate the dim to `context is None`")
-        # counts
-        lst = cat.args[0] if cat.args else None
-        full = None
-        rem = None
-        e = lst
-        appended = []
-        while is_synth(e, "__append__"):
-            appended.append(e.args[1])
-            e = e.args[0]
-        if isinstance(e, ast.ListComp) and isinstance(e.elt, ast.Call) and attr_chain(e.elt.func) == "self._sample":
-            full = (e.elt, e.generators[0].iter)
-        ok_full = False
-        if full is not None:
-            call, it = full
-            a0 = canon_text(call.args[0]) if call.args else ""
-            a1 = canon_text(call.args[1]) if len(call.args) > 1 else canon_text(_kwarg(call, "context") or ast.Constant(value=None))
-            itxt = canon_text(it)
-            if a0 == "batch_size" and a1 == "context" and itxt in ("range(num_samples // batch_size)",):
-                ok_full = True
-        if ok_full:
-            res_cnt.ok("num_samples // batch_size batches of batch_size with the context")
-        else:
-            res_cnt.fail(Finding("BATCH-COUNT", sm.module, sm.qualname, node, "full batches are not `[self._sample(batch_size, context) for _ in range(num_samples // batch_size)]`"))
-        # remainder: present on the path where leftover > 0, absent otherwise
-        xatoms = set()
-        for et, raw, pol in path.conds:
-            from ..symexp import clone as _clone
+    def report(res, rule, key, msg):
+        if key in reported:
+            return
+        reported.add(key)
+        res.fail(Finding(rule, sm.module, sm.qualname, sm.node, msg, construct=key))
 
-            xatoms |= cond_atoms(_Canon().visit(_clone(et)), pol)
-        has_rem_cond = any(a in ("num_samples % batch_size > 0", "0 < num_samples % batch_size", "num_samples % batch_size != 0", "0 != num_samples % batch_size", "num_samples % batch_size") for a in xatoms)
-        no_rem_cond = any(a in ("num_samples % batch_size <= 0", "0 >= num_samples % batch_size", "num_samples % batch_size == 0", "0 == num_samples % batch_size", "not(num_samples % batch_size)") for a in xatoms)
-        if appended:
-            c = appended[0]
-            okr = isinstance(c, ast.Call) and attr_chain(c.func) == "self._sample" and c.args and canon_text(c.args[0]) == "num_samples % batch_size" and len(c.args) > 1 and canon_text(c.args[1]) == "context"
-            if okr and has_rem_cond and len(appended) == 1:
-                res_cnt.ok("remainder batch of num_samples % batch_size when positive")
-            else:
-                res_cnt.fail(Finding("BATCH-COUNT", sm.module, sm.qualname, node, "the remainder batch must be self._sample(num_samples % batch_size, context), generated exactly when the remainder is positive"))
-        else:
-            if no_rem_cond:
-                res_cnt.ok("no remainder batch when num_samples % batch_size == 0")
-            else:
-                res_cnt.fail(Finding("BATCH-COUNT", sm.module, sm.qualname, node, "no remainder batch is generated although num_samples % batch_size may be positive: fewer samples than requested"))
-    if n < 2:
-        res_cnt.undecide("Distribution.sample", "fewer than two batched paths found")
-    # unbatched path
-    direct = [pp for pp in paths_of(sm.node) if pp.kind == "return" and isinstance(pp.ret, ast.Call) and attr_chain(pp.ret.func) == "self._sample"]
-    if direct and [canon_text(a) for a in direct[0].ret.args] == ["num_samples", "context"]:
-        res_cnt.ok("batch_size None: self._sample(num_samples, context)")
-    else:
-        res_cnt.fail(Finding("BATCH-COUNT", sm.module, sm.qualname, sm.node, "without batch_size, sample must return self._sample(num_samples, context)", construct="unbatched path of sample"))
+    n_ok = 0
+    for cx in (None, Sym(("ctx",))):
+        for n in range(1, 8):
+            for b in (None, 1, 2, 3, 4, 7, 9):
+                tag = "sample(%d, context=%s, batch_size=%s)" % (n, "None" if cx is None else "<rows>", b)
+                obj = Obj({"_sample": SymFn("_sample", 1)}, methods)
+                pe = PEval(obj)
+                try:
+                    r = pe.call_method(sm.node, [n], {"context": cx, "batch_size": b})
+                except PUndecided as ex:
+                    res_cnt.undecide("Distribution.%s" % tag, str(ex))
+                    continue
+                except PRaises as ex:
+                    report(res_cnt, "BATCH-COUNT", "raises for valid arguments", "%s raises: %s" % (tag, ex.what))
+                    continue
+                if not isinstance(r, Sym):
+                    res_cnt.undecide("Distribution.%s" % tag, "does not return a tensor")
+                    continue
+                t = r.term
+                # a result trimmed along axis 0: fine without a context (axis 0 is the sample
+                # axis), a loss of context rows with one
+                trimmed = None
+                if isinstance(t, tuple) and t and t[0] == "slice0":
+                    if cx is not None:
+                        report(res_cat, "BATCH-CAT", "trim along axis 0 with a context", "%s trims the joined batches with [:%s] along axis 0, which is the context axis when a context is given ([rows, n, ...])" % (tag, t[2]))
+                        continue
+                    trimmed, t = t[2], t[1]
+                # per-batch [rows, b] pairs merged to [rows*b], joined, and split as [rows, n]
+                if isinstance(t, tuple) and t and t[0] == "split" and isinstance(t[1], tuple) and t[1][0] == "cat" and all(isinstance(q, tuple) and q[0] == "merge" for q in t[1][1]):
+                    if len(t[1][1]) > 1:
+                        report(res_cat, "BATCH-CAT", "merged batches split as [rows, n]", "%s merges each [rows, batch] pair to rows*batch, concatenates the batches and splits as [rows, n]: the merged axis is ordered (batch, row, sample), so the rows of different contexts interleave" % tag)
+                        continue
+                    t = t[1][1][0][1]
+                elif isinstance(t, tuple) and t and t[0] == "split" and isinstance(t[1], tuple) and t[1][0] == "merge":
+                    t = t[1][1]
+                parts, dim = ([t], None)
+                if isinstance(t, tuple) and t and t[0] == "cat":
+                    parts, dim = list(t[1]), t[2]
+                okc = True
+                counts = []
+                for q in parts:
+                    if not (isinstance(q, tuple) and q[:2] == ("call", "_sample") and len(q) == 4):
+                        res_cnt.undecide("Distribution.%s" % tag, "result `%s` is not built from _sample calls only" % show(t)[:80])
+                        okc = False
+                        break
+                    counts.append(q[2])
+                    if q[3] != (cx.term if cx is not None else None):
+                        report(res_cnt, "BATCH-COUNT", "context of the batches", "%s draws a batch with context `%s`: every batch must be drawn for the given context" % (tag, q[3]))
+                        okc = False
+                if not okc:
+                    continue
+                if not all(isinstance(k, int) for k in counts):
+                    res_cnt.undecide("Distribution.%s" % tag, "symbolic batch sizes")
+                    continue
+                if trimmed is not None and isinstance(trimmed, int) and sum(counts) >= trimmed and (dim in (0, None)):
+                    # drawn in full batches, then cut back to the requested number
+                    extra = sum(counts) - trimmed
+                    counts = counts[:-1] + [counts[-1] - extra] if extra <= counts[-1] else counts
+                    if extra > 0 and sum(counts) != trimmed:
+                        counts = [trimmed]
+                if sum(counts) != n:
+                    report(res_cnt, "BATCH-COUNT", "total number of samples", "%s draws batches of %s = %d samples; %d were requested" % (tag, counts, sum(counts), n))
+                    continue
+                if b is not None and any(k > b or k < 1 for k in counts):
+                    report(res_cnt, "BATCH-COUNT", "batch size bound", "%s draws batches of %s: a batch exceeds batch_size (or is empty)" % (tag, counts))
+                    continue
+                if b is None and counts != [n]:
+                    report(res_cnt, "BATCH-COUNT", "unbatched path of sample", "%s: without batch_size, sample must be one _sample(num_samples, context) call (found %s)" % (tag, counts))
+                    continue
+                if len(parts) > 1:
+                    want_dim = 0 if cx is None else 1
+                    if dim != want_dim:
+                        report(res_cat, "BATCH-CAT", "concatenation axis %s a context" % ("with" if cx is not None else "without"), "%s concatenates the batches along dim %s; _sample returns %s, so the sample axis is %d" % (tag, dim, "[rows, n, ...]" if cx is not None else "[n, ...]", want_dim))
+                        continue
+                n_ok += 1
+    if n_ok:
+        res_cnt.ok("%d (num_samples, batch_size, context) combinations: exact count, bounded batches, one context" % n_ok)
+        res_cat.ok("batches concatenated along the sample axis in every evaluated combination")
     return [res_cat, res_cnt]
 
 
